@@ -1,6 +1,7 @@
 package filterlist
 
 import (
+	"os"
 	"strings"
 
 	"github.com/AdguardTeam/urlfilter/rules"
@@ -184,4 +185,53 @@ func verifC11Vacuity() {
 	for sc.Scan() {
 	}
 	verifAssert(false, "vacuity")
+}
+
+// verifFileShort is intercepted by the executor (file model with short reads); natively a temp file.
+func verifFileShort(content string) *os.File { return verifFile(content) }
+
+// verifC11File: a file-backed list and an in-memory list with the same content are
+// indistinguishable: RetrieveRule at every offset and the scanned sequence.  The read
+// buffer is shrunk to bufLen bytes so that lines straddle reads, and every read may be short.
+func verifC11File(n, bufLen int) {
+	content := verifString("content", n, "a \n\r")
+	mem := &StringRuleList{ID: 3, RulesText: content}
+	fl := &FileRuleList{ID: 3, File: verifFileShort(content), buffer: make([]byte, bufLen)}
+	for idx := 0; idx <= n; idx++ {
+		r1, e1 := mem.RetrieveRule(idx)
+		r2, e2 := fl.RetrieveRule(idx)
+		verifReach("c11.file")
+		verifAssert((e1 == nil) == (e2 == nil), "c11: file-backed and in-memory RetrieveRule fail together")
+		if e1 == nil && e2 == nil {
+			verifAssert((r1 == nil) == (r2 == nil), "c11: file-backed and in-memory RetrieveRule agree on nothing/rule")
+			if r1 != nil && r2 != nil {
+				verifAssert(verifKind(r1) == verifKind(r2) && r1.Text() == r2.Text() && r2.GetFilterListID() == 3, "c11: file-backed RetrieveRule == in-memory RetrieveRule")
+			}
+		}
+	}
+	_, e := fl.RetrieveRule(-1)
+	verifAssert(e != nil, "c11: a negative index is an error")
+}
+
+// verifC11FileScan: scanning the file-backed list == scanning the in-memory list.
+func verifC11FileScan(n int) {
+	content := verifString("content", n, "a \n\r")
+	mem := &StringRuleList{ID: 3, RulesText: content}
+	fl := &FileRuleList{ID: 3, File: verifFile(content), buffer: make([]byte, 4)}
+	s1, s2 := mem.NewScanner(), fl.NewScanner()
+	for i := 0; i <= n; i++ {
+		a, b := s1.Scan(), s2.Scan()
+		verifAssert(a == b, "c11: file-backed and in-memory scans yield the same number of rules")
+		if !a || !b {
+			break
+		}
+		r1, i1 := s1.Rule()
+		r2, i2 := s2.Rule()
+		verifReach("c11.filescan")
+		verifAssert(i1 == i2 && verifKind(r1) == verifKind(r2) && r1.Text() == r2.Text(), "c11: file-backed and in-memory scans yield the same rules and indexes")
+	}
+	// a closed file: retrieval is an error, not a crash (C19)
+	_ = fl.Close()
+	_, e := fl.RetrieveRule(0)
+	verifAssert(e != nil, "c19: retrieval from a closed file is an error")
 }
